@@ -20,6 +20,10 @@ class HE(Exception):
     pass
 
 
+class Boom:
+    pass
+
+
 def scripts(modeset=MODES) -> list:
     out = []
     for m in modeset:
@@ -55,6 +59,10 @@ class C12(E1Check):
                     continue
                 for sc in allsc:
                     progs.append({"depth": depth, "tasks": [{"spawn": spawn, "script": sc}]})
+        for depth in (1, 2):
+            for spawn in SPAWNS:
+                for sc in allsc[::4] if tier == "quick" else allsc[::2]:
+                    progs.append({"depth": depth, "noise": True, "tasks": [{"spawn": spawn, "script": sc}]})
         for sc in allsc[::3] if tier == "quick" else allsc:
             for spawn in EXTRA_SPAWNS:
                 progs.append({"depth": 2, "tasks": [{"spawn": spawn, "script": sc}]})
@@ -122,6 +130,48 @@ class C12(E1Check):
                 return "NoCurrentContext"
             return names.get(id(c), f"<{type(c).__name__}>")
 
+        def failing_sync() -> Any:
+            raise HE("sync factory fails")
+
+        async def failing_async() -> Any:
+            await checkpoint()
+            raise HE("async factory fails")
+
+        def give_factories(ctx: Any) -> None:
+            from asphalt.core import ResourceConflict
+
+            try:
+                ctx.add_resource_factory(failing_sync, "boom_sync", types=Boom)
+                ctx.add_resource_factory(failing_async, "boom_async", types=Boom)
+            except ResourceConflict:
+                pass  # inherited from a context that already has them
+
+        async def noise(t: int, stack: list, path: str, ctx: Any) -> None:
+            """Operations that have nothing to do with entering or leaving a block: lookups that FAIL inside a resource factory, made
+            through the current context and through the (non-current) context below it; current_context() must not move."""
+            give_factories(ctx)
+            below = next((c for c in reversed(stack[:-1]) if c is not None), None)
+            for who, target in (("current", cur()), ("below", below)):
+                if target is None:
+                    continue
+                try:
+                    target.get_resource_nowait(Boom, "boom_sync")
+                except HE:
+                    pass
+                except Exception as e:  # noqa: BLE001 - (a context that does not have the factories: not the point here)
+                    log("noise-other", t, path, who, type(e).__name__)
+                check(t, stack, f"inside {path} after a failed sync-factory lookup through the {who} context")
+                try:
+                    await target.get_resource(Boom, "boom_async")
+                except HE:
+                    pass
+                except Exception as e:  # noqa: BLE001
+                    log("noise-other", t, path, who, type(e).__name__)
+                check(t, stack, f"inside {path} after a failed async-factory lookup through the {who} context")
+            n = Context()
+            if n.parent is not ctx:
+                fails.append(("parent", f"task {t}: Context() created inside {path} after failed lookups has parent {_d(n.parent)}, expected {_d(ctx)}"))
+
         async def run_block(t: int, stack: list, node: tuple, path: str, new_parent: Any) -> None:
             mode, children = node
             await env.gate(f"t{t}.{path}.enter")
@@ -136,6 +186,8 @@ class C12(E1Check):
                         stack.append(ctx)
                         try:
                             check(t, stack, f"inside {path}")
+                            if program.get("noise"):
+                                await noise(t, stack, path, ctx)
                             if mode == "tdraise":
                                 def raiser() -> None:
                                     raise HE("teardown")
@@ -176,6 +228,21 @@ class C12(E1Check):
             if msg:
                 fails.append(("inherit", f"task {t} ({spec['spawn']}): {msg}"))
             stack = [bottom]
+            if program.get("noise") and bottom is not None:
+                # also outside any block of its own: inside prepare() the current context is a ComponentContext that forwards lookups
+                for o in outer:
+                    give_factories(o)
+                for api in ("sync", "async"):
+                    try:
+                        if api == "sync":
+                            bottom.get_resource_nowait(Boom, "boom_sync")
+                        else:
+                            await bottom.get_resource(Boom, "boom_async")
+                    except HE:
+                        pass
+                    except Exception as e:  # noqa: BLE001
+                        log("noise-other", t, "bottom", api, type(e).__name__)
+                    check(t, stack, f"at the bottom after a failed {api}-factory lookup")
             new_parent = outer[-1] if spec["spawn"] == "component" else bottom
             for k, node in enumerate(spec["script"]):
                 await run_block(t, stack, node, str(k), new_parent)
